@@ -5,8 +5,8 @@ package main
 // built three ways (default, -gcflags=all=-l, -race).
 
 import (
-	"context"
 	"bytes"
+	"context"
 	"fmt"
 	"os"
 	"runtime"
